@@ -108,6 +108,11 @@ pub fn worker_main(engine: &dyn Engine, args: &[String]) -> i32 {
         let from: u64 = args.get(5).map(|s| s.parse().unwrap()).unwrap_or(0);
         (0..total).filter(|i| i % n == w && *i >= from).collect()
     };
+    // a run must not be able to exhaust the machine: bound the address space
+    unsafe {
+        let lim = libc::rlimit { rlim_cur: 4 << 30, rlim_max: 4 << 30 };
+        libc::setrlimit(libc::RLIMIT_AS, &lim);
+    }
     let stdout = std::io::stdout();
     let mut out = std::io::BufWriter::new(stdout.lock());
     let mut counters: BTreeMap<String, u64> = BTreeMap::new();
@@ -366,6 +371,7 @@ pub fn check_main(engine: &'static dyn Engine, tier: &str) -> i32 {
         nworkers
     );
     let mut agg = Aggregate::default();
+    crate::sandbox::sweep_stale();
 
     // main batch; a worker that dies is resumed after the culprit index
     let mut handles = vec![];
@@ -396,7 +402,8 @@ pub fn check_main(engine: &'static dyn Engine, tier: &str) -> i32 {
                     Some((i, s)) => {
                         from = i + 1;
                         reports.push((rep, Some((i, s))));
-                        if reports.len() > 200 {
+                        if reports.len() > 6 {
+                            // enough process deaths to fail the check; do not burn the machine
                             break;
                         }
                     }
@@ -425,7 +432,7 @@ pub fn check_main(engine: &'static dyn Engine, tier: &str) -> i32 {
     }
 
     // classify process deaths: re-run alone, then ask the engine
-    for (i, seed, status) in agg.deaths.clone() {
+    for (i, seed, status) in agg.deaths.clone().into_iter().take(4) {
         let rep = spawn_worker(prop, tier, base, &["list".into(), i.to_string()]);
         let mut tmp = Aggregate::default();
         let (done, _) = absorb(&mut tmp, &rep);
